@@ -45,9 +45,41 @@ def containers(elems, width, keys):
                 yield dict(zip(ks, combo))
 
 
+def wrap(kind, members):
+    """One container of the given kind holding the members (hashable kinds only get hashable members: the caller sees to it)."""
+    if kind == "list":
+        return list(members)
+    if kind == "tuple":
+        return tuple(members)
+    if kind == "set":
+        return set(members)
+    if kind == "frozenset":
+        return frozenset(members)
+    return {"k%d" % i: m for i, m in enumerate(members)}
+
+
+def kind_chains(depth):
+    """Every chain of container kinds of the given depth around one or two leaves (each kind inside each other kind, in every order)."""
+    kinds = ["list", "tuple", "set", "frozenset", "dict"]
+    for chain in itertools.product(kinds, repeat=depth):
+        for leaves in ((1,), (2, "a"), ()):
+            v = wrap(chain[-1], leaves)
+            ok = True
+            for k in reversed(chain[:-1]):
+                if k in ("set", "frozenset") and not hashable(v):
+                    ok = False
+                    break
+                v = wrap(k, (v,) if not leaves or k in ("set", "frozenset") else (v, 0))
+            if ok:
+                yield v
+
+
 def terms(tier):
     for v in LEAVES:
         yield v
+    for d in ((3,) if tier == "quick" else (3, 4)):
+        for v in kind_chains(d):
+            yield v
     d1 = list(containers(LEAVES, 2, KEYS))
     for v in d1:
         yield v
@@ -285,7 +317,7 @@ LEGS = {"roundtrip": leg_roundtrip, "failures": leg_failures, "long-histories": 
 
 META = {
     "technique": "bounded-exhaustive enumeration of container nestings against a structural reference (type-exact comparison, deep before/after snapshots)",
-    "rule": "roundtrip: every list/tuple/set/frozenset/dict of width <=2 over 16 primitive leaves (depth 1), plus depth 2 over reduced alphabets "
+    "rule": "roundtrip: every list/tuple/set/frozenset/dict of width <=2 over 16 primitive leaves (depth 1), every chain of 3 (thorough 4) container kinds in every order around 0-2 leaves, plus depth 2 over reduced alphabets "
     "(quick: width 1 over all reduced depth-1 terms and width 2 over one representative per constructor; thorough: width 2 over all reduced depth-1 "
     "terms, and depth 3 over representatives); failures: 21 malformed/unresolvable descriptors x 10 embedding contexts (plain containers, bean fields, "
     "nested beans) and a bean whose serialisation method raises x 6 contexts; every roundtrip term is also dumped with each of dump()'s object-only parameters "
